@@ -537,6 +537,23 @@ Theorem block_mode_needs_dict_check_refuted :
 Proof. exact block_mode_without_check_refuted. Qed.
 Print Assumptions block_mode_needs_dict_check_refuted.
 
+(* 24. R3.  ... and it is not over-eager: a block-mode block that continues the previous input (no forced discontinuity)
+   and needs no index correction (a correction drops every dictionary by design) keeps the attached dictionary, at the same
+   attach point. *)
+Theorem block_mode_keeps_dict_on_contiguous_input :
+  forall freq h src size,
+    AInv h -> ms_dms (h_ms h) = true -> h_forceNC h = false ->
+    src = nextSrc (ms_window (h_ms h)) -> size <> 0 ->
+    let h1 := continue_update h src size in
+    window_needOverflowCorrection freq (ms_window (h_ms h1))
+        (cycleLog_of (p_chainLog (h_params h1)) (p_strategy (h_params h1)))
+        (u32 (Z.shiftl 1 (p_windowLog (h_params h1)))) (ms_loadedDictEnd (h_ms h1)) src (src + size) = false ->
+    let h' := step freq h (OpBlockMode src size) in
+    ms_dms (h_ms h') = true /\ ms_loadedDictEnd (h_ms h') = ms_loadedDictEnd (h_ms h) /\
+    dictLimit (ms_window (h_ms h')) = dictLimit (ms_window (h_ms h)).
+Proof. exact block_mode_keeps_dict_lemma. Qed.
+Print Assumptions block_mode_keeps_dict_on_contiguous_input.
+
 (* the hypotheses of 22 are satisfiable: a history with an attach, frame-mode and block-mode steps *)
 Example attached_dict_history_example :
   let p := mkCParams 13 13 14 2 false in
